@@ -447,7 +447,7 @@ class SceneGraph:
         nodes : (n,) array
           All node names.
         """
-        return self.transforms.nodes
+        return list(self.transforms.nodes)
 
     @caching.cache_decorator
     def nodes_geometry(self):
